@@ -43,11 +43,14 @@ def __call__(self, T, P=None):
 
 VolumeSolid.__call__ = __call__
 
-# Shallow copy
+# Shallow copy; the containers that add_method and add_tabular_data write to are not shared
 def copy(self):
     cls = type(self)
     copy = cls.__new__(cls)
-    copy.__dict__.update(self.__dict__)
+    dct = copy.__dict__
+    dct.update(self.__dict__)
+    for i in ('local_methods', 'all_methods', 'T_limits', 'tabular_data', 'tabular_data_interpolators'):
+        if i in dct: dct[i] = dct[i].copy()
     return copy
 
 TDependentProperty.copy = copy
